@@ -11,7 +11,7 @@ m = {
     "hooks": {
         "guard": "XENIUM_VERIF",
         "enable": "harness TUs are compiled with -DXENIUM_VERIF -fsanitize=thread (instrumentation only) and linked against xmc/rt.cpp instead of the TSan runtime; see Makefile",
-        "baseline_off_cmd": "cmake --build /repo/_build && ctest --test-dir /repo/_build -j8 --timeout 900",
+        "baseline_off_cmd": "(test -f /repo/_build/build.ninja || cmake -G Ninja -S /repo -B /repo/_build) && cmake --build /repo/_build --target gtest && ctest --test-dir /repo/_build -j8 --timeout 900",
         "source_commits": [c.split()[0] for c in hook_commits],
         "add_only": True,
     },
